@@ -45,7 +45,7 @@ CHECKS = {
     },
     "C12": {
         "id": "C12", "pkg": "c12", "test": "TestC12", "level": "fault_enumeration",
-        "runs": {"quick": 160, "thorough": 6000},
+        "runs": {"quick": 320, "thorough": 6000},
         "chunk": 32, "min_chunk": 16, "run_timeout_s": 30, "shrink_allowance_s": 600,
         "selftest": {"quick": 6, "thorough": 24}, "selftest_procs": {"quick": 2, "thorough": 6},
         "rule": "each run draws a skeleton program (functions, func-typed variables, closures, sub-package, defer of closures / functions / natives, recover, explicit panics of string/int/error values, native callbacks; one observable action per line) and runs it fault-free to record the h.Point call sequence (length W); then for EVERY k in 1..W the k-th Point call delivers Stop(E), Fatal(v) and a host panic (kind string/int/error chosen as a pure function of program and k). "
@@ -119,7 +119,7 @@ CHECKS = {
     },
     "C04": {
         "id": "C04", "pkg": "c04", "test": "TestC04", "level": "exploration",
-        "runs": {"quick": 24000, "thorough": 3000000},
+        "runs": {"quick": 32000, "thorough": 3000000},
         "chunk": 4000, "run_timeout_s": 20,
         "rule": "each run picks a source set (60% a program or template of the repository's comparison corpus with its .dir companions, else a generated template set, file tree, skeleton program or concurrent program), lets the simulated disk damage one stored file (truncation at a drawn offset, 1-3 byte runs replaced from a delimiter/keyword dictionary, insertion, stale/new splice with another corpus file, duplicated block, short truncation plus delimiter such as `{##`, deleted block; 10% undamaged), optionally injects one I/O fault, draws the token channel capacity (default 20, 0, 1, 3), the FS kind and NoParseShortShowStmt, and builds inside a synctest bubble. "
                 "evaluations = builds; distinct_nontrivial = distinct (source, damaged file, damage) triples",
